@@ -20,7 +20,7 @@ use util::Rng;
 
 pub fn exec_case(slice: &str, lines: &[String]) -> Vec<String> {
     let r = util::guarded(|| match slice {
-        "overlay" => kv::exec_overlay(lines),
+        "overlay" | "overlay-exh" => kv::exec_overlay(lines),
         "views" => kv::exec_views(lines),
         "bank" => bank::exec_bank(lines),
         "addr" => addr::exec_addr(lines),
@@ -41,8 +41,9 @@ pub fn exec_case(slice: &str, lines: &[String]) -> Vec<String> {
     }
 }
 
-pub fn gen_case(slice: &str, rng: &mut Rng, thorough: bool) -> Vec<String> {
+pub fn gen_case(slice: &str, rng: &mut Rng, thorough: bool, index: u64) -> Vec<String> {
     match slice {
+        "overlay-exh" => kv::gen_overlay_exh(index),
         "overlay" => kv::gen_overlay(rng, thorough),
         "views" => kv::gen_views(rng, thorough),
         "bank" => bank::gen_bank(rng, thorough),
@@ -81,7 +82,7 @@ fn main() {
                 // every case has its own PRNG stream derived from (seed, case index)
                 let mut rng = Rng::new(seed.wrapping_mul(0x9E3779B97F4A7C15) ^ c.wrapping_mul(0xD1B54A32D192ED03));
                 rng.next();
-                let lines = gen_case(&slice, &mut rng, thorough);
+                let lines = gen_case(&slice, &mut rng, thorough, c);
                 let outs = exec_case(&slice, &lines);
                 writeln!(fo, "case {}", c).unwrap();
                 writeln!(fi, "case {}", c).unwrap();
